@@ -128,7 +128,7 @@ KeepAux == UNCHANGED <<pend, rot, atag>>
 (* one slot per kind of operation in flight, so that operations of different kinds may overlap *)
 NoneP == [kind |-> "none"]
 NoPend == [reg |-> NoneP, auth |-> <<>>, stats |-> NoneP, batch |-> NoneP, authsrv |-> NoneP,
-           migrate |-> NoneP, crashed |-> NoneP, sync |-> NoneP]
+           migrate |-> NoneP, crashed |-> NoneP, sync |-> NoneP, recent |-> NoneP]
 
 -----------------------------------------------------------------------------
 TReset ==
@@ -268,9 +268,36 @@ TAuthorizeResp ==
   /\ UNCHANGED <<vars, rot, atag>>
 
 TImpactList ==
-  /\ Ev.a \in {"ImpactList", "AuthzPeers", "AuthSrvListEquip", "QueryEquipment",
-               "QueryRecent"}
+  /\ Ev.a \in {"ImpactList", "AuthzPeers", "AuthSrvListEquip", "QueryEquipment"}
   /\ UNCHANGED vars /\ KeepAux
+
+(* the locked part of the recent-reports handler: a read of one device's window *)
+RecentAnswer(key) ==
+  IF key \in DOMAIN pkidx /\ pkidx[key] \in DOMAIN live
+  THEN [ok |-> TRUE, off |-> offset, slots |-> live[pkidx[key]]]
+  ELSE [ok |-> FALSE]
+TQueryRecent ==
+  /\ Ev.a = "QueryRecent"
+  /\ Apply(UNCHANGED vars)
+  /\ PostSane(Ev.post)
+  /\ pend' = [pend EXCEPT !.recent = [kind |-> "recent", key |-> Ev.key, ans |-> RecentAnswer(Ev.key)]]
+  /\ UNCHANGED <<rot, atag>>
+(* the reply as decoded by the driver: the device's window by index, signed by the server; a key   *)
+(* that is unknown (never authorized, or of banned equipment) or malformed is refused              *)
+TRecentResp ==
+  /\ Ev.a = "RecentResp"
+  /\ ("QueryRecent" \in Strict =>
+        IF ~Ev.wellformed THEN Ev.status \in {400, 405}
+        ELSE LET exp == IF pend.recent.kind = "recent" /\ pend.recent.key = Ev.key THEN pend.recent.ans
+                        ELSE RecentAnswer(Ev.key) IN
+             IF ~exp.ok THEN Ev.status = 500
+             ELSE /\ Ev.status = 200
+                  /\ Ev.sigok
+                  /\ LET got == UnSlots(Ev.slots) IN
+                     /\ DOMAIN got = {ts - exp.off : ts \in DOMAIN exp.slots}
+                     /\ \A ts \in DOMAIN exp.slots : got[ts - exp.off] = exp.slots[ts])
+  /\ pend' = [pend EXCEPT !.recent = NoneP]
+  /\ UNCHANGED <<vars, rot, atag>>
 
 TImpactSet ==
   /\ Ev.a = "ImpactSet"
@@ -524,7 +551,7 @@ TNext ==
      \/ TRecvReport \/ TUDPRead
      \/ TRegister \/ TRegisterResp \/ TAuthorize \/ TAuthorizeResp
      \/ TImpactList \/ TImpactSet
-     \/ TQueryStats \/ TStatsResp
+     \/ TQueryStats \/ TStatsResp \/ TQueryRecent \/ TRecentResp
      \/ TEquipmentResp \/ TCheckInv \/ TBatchBegin \/ TRegisterInBatch \/ TBatchEnd
      \/ TAuthorizeServer \/ TAuthorizeServerResp \/ TServersResp \/ TMigrate \/ TMigrateResp
      \/ TSyncRead \/ TSyncServers \/ TSyncResp \/ THttp \/ TConns \/ TLogPanics \/ TCrash \/ TDiskIs
